@@ -56,6 +56,8 @@ DEFAULTS = {
     "row_containers": "none",  # none | header | group | all
     "deflate": True,  # content.xml deflated (otherwise stored)
     "bare_empty": False,  # rows without cells / tables without rows written without children
+    "annotations": False,  # every non-empty cell carries a comment (office:annotation with a paragraph of its own)
+    "unnamed": False,  # tables without table:name
 }
 
 
@@ -300,7 +302,10 @@ def content_xml(sheets, opts=None, fault=None):
     fault_used = False
     for sheet_index, table in enumerate(sheets):
         width = max([len(row) for row in table] + [1])
-        out.append(nl + ind(3) + '<table:table table:name="Sheet%d">' % (sheet_index + 1))
+        if opts.get("unnamed"):
+            out.append(nl + ind(3) + "<table:table>")
+        else:
+            out.append(nl + ind(3) + '<table:table table:name="Sheet%d">' % (sheet_index + 1))
         if width > 1:
             out.append(nl + ind(4) + '<table:table-column table:number-columns-repeated="%d"/>' % width)
         else:
@@ -323,6 +328,10 @@ def content_xml(sheets, opts=None, fault=None):
             cell_xml = []
             for cell_index, (cell_count, text) in enumerate(_runs(cells, opts["col_runs"])):
                 inner, pieces = _cell_content(text, opts)
+                if inner and opts.get("annotations"):
+                    # a comment the way spreadsheet applications store it: in front of the cell's own paragraphs
+                    inner = ("<office:annotation><text:p>a comment</text:p><text:p>of two paragraphs</text:p>"
+                             "</office:annotation>") + inner
                 attr = ""
                 if cell_count > 1:
                     attr += ' table:number-columns-repeated="%d"' % cell_count
